@@ -276,6 +276,17 @@ fn alphabet(region: &str) -> Vec<Ev> {
         rx1: Some(Frame::Down { fcnt: Fcnt::Rel(2), confirmed: false, ack: false, fopts: vec![], port: Some(0), payload: vec![0x08, 0x02, 0x06, 0x06, 0x06, 0x06, 0x08, 0x03, 0x08, 0x04], tamper: Tamper::None }),
         rx2: None,
     });
+    // answers that overflow the 15-byte budget while a sticky one fits (RXTimingSetupAns + 5 DevStatusAns = 16 bytes;
+    // RXParamSetupAns + RXTimingSetupAns + 5 DevStatusAns): what the overflow leaves behind in RAM is not in the document
+    for pl in [vec![0x08u8, 0x02, 0x06, 0x06, 0x06, 0x06, 0x06], vec![0x06, 0x06, 0x06, 0x06, 0x08, 0x03, 0x06, 0x06]] {
+        v.push(Ev::Cycle {
+            confirmed: false,
+            port: 1,
+            len: 1,
+            rx1: Some(Frame::Down { fcnt: Fcnt::Rel(1), confirmed: false, ack: false, fopts: vec![], port: Some(0), payload: pl, tamper: Tamper::None }),
+            rx2: None,
+        });
+    }
     // the network's very first downlink carries counter 0 (only acceptable while no downlink has been seen)
     v.push(Ev::Cycle {
         confirmed: false,
@@ -322,6 +333,131 @@ impl System for Sys {
 
     fn key(&self) -> Self::Key {
         (self.core.snap(), format!("{:?}", self.core.st()))
+    }
+    fn alive(&self) -> bool {
+        self.core.dead.is_none()
+    }
+    fn outcome(&self) -> String {
+        self.outcome.clone()
+    }
+}
+
+// ------------------------------------------------------------------ the async front-end as the original
+
+/// Histories on the async device (uplinks with / without downlinks that leave an ACK owed or a sticky answer, and
+/// uplinks during which one radio call fails); at every state the session is persisted, a second async device is
+/// constructed around the restored session, and both run the same probe uplinks.
+pub struct SysA {
+    core: crate::adev::ACore<14, 0>,
+    cfg: DevCfg,
+    class_c: bool,
+    hist: Vec<crate::adev::AEv>,
+    outcome: String,
+}
+
+impl SysA {
+    pub fn new(cfg: &DevCfg, class_c: bool) -> Self {
+        SysA { core: crate::adev::ACore::new(cfg, class_c), cfg: cfg.clone(), class_c, hist: vec![], outcome: String::new() }
+    }
+}
+
+fn a_alphabet() -> Vec<crate::adev::AEv> {
+    use crate::adev::{AEv, Script};
+    let dl = |confirmed: bool, fopts: Vec<u8>| Frame::Down { fcnt: Fcnt::Rel(1), confirmed, ack: false, fopts, port: Some(1), payload: vec![5], tamper: Tamper::None };
+    let send = |confirmed: bool, script: Script| AEv::Send { confirmed, port: 1, len: 1, script };
+    let mut v = vec![
+        send(false, Script::default()),
+        send(true, Script::default()),
+        send(false, Script { rx1: Some(dl(true, vec![])), ..Default::default() }),
+        send(false, Script { rx2: Some(dl(false, vec![0x08, 0x02])), ..Default::default() }),
+        send(false, Script { rx1: Some(dl(true, vec![0x06])), ..Default::default() }),
+    ];
+    // one radio call of the uplink fails (tx, RX1 set-up, RX1, ...)
+    for k in 0..4usize {
+        v.push(send(false, Script { fault_at: Some(k), ..Default::default() }));
+    }
+    v
+}
+
+fn a_tx(st: &Option<crate::adev::AStep>) -> (Vec<Vec<u8>>, String, Option<VerifSession>) {
+    match st {
+        Some(s) => (
+            s.ops.iter().filter_map(|o| if let crate::adev::AOp::Tx { bytes, .. } = o { Some(bytes.clone()) } else { None }).collect(),
+            crate::adev::short_aresp(&s.resp),
+            session_of(&s.after),
+        ),
+        None => (vec![], "dead".into(), None),
+    }
+}
+
+impl System for SysA {
+    type Ev = crate::adev::AEv;
+    type Key = (VerifMac, usize);
+
+    fn enabled(&self) -> Vec<Self::Ev> {
+        a_alphabet()
+    }
+
+    fn step(&mut self, ev: &Self::Ev) -> Vec<V> {
+        use crate::adev::{ACore, AEv, AResp, Script};
+        let mut out = vec![];
+        match self.core.apply(ev) {
+            Some(st) => {
+                if let AResp::Panic(p) = &st.resp {
+                    return vec![V { sig: format!("C20|async|panic|{}", panic_site(p)), what: p.clone() }];
+                }
+                self.outcome = crate::adev::short_aresp(&st.resp);
+            }
+            None => return out,
+        }
+        self.hist.push(ev.clone());
+        let Some(sess) = self.core.dev.get_session() else { return out };
+        let Ok(doc) = serde_json::to_string(sess) else { return vec![V { sig: "C20|serialise-error".into(), what: "async".into() }] };
+        let restored: Session = match catch(|| serde_json::from_str::<Session>(&doc)) {
+            Ok(Ok(s)) => s,
+            Ok(Err(e)) => return vec![V { sig: "C20|own-document-rejected".into(), what: format!("{e}: {doc}") }],
+            Err(p) => return vec![V { sig: format!("C20|panic|deserialise|{}", panic_site(&p)), what: p }],
+        };
+        // the original, replayed, and a device constructed around the restored session
+        let mut a: ACore<14, 0> = ACore::new(&self.cfg, self.class_c);
+        for e in &self.hist {
+            a.apply(e);
+        }
+        let snap = a.snap();
+        let mut b: ACore<14, 0> = ACore::with_session(&self.cfg, self.class_c, Some(restored));
+        b.dev.set_datarate(dr_of(snap.data_rate));
+        b.inner.borrow_mut().net = a.net();
+        let fresh = Frame::Down { fcnt: Fcnt::Rel(1), confirmed: true, ack: false, fopts: vec![0x06], port: Some(3), payload: vec![1, 2, 3], tamper: Tamper::None };
+        let probes = [
+            AEv::Send { confirmed: false, port: 1, len: 2, script: Script::default() },
+            AEv::Send { confirmed: true, port: 2, len: 1, script: Script::default() },
+            AEv::Send { confirmed: false, port: 1, len: 1, script: Script { rx1: Some(fresh), ..Default::default() } },
+            AEv::Send { confirmed: false, port: 1, len: 1, script: Script::default() },
+        ];
+        for (i, e) in probes.iter().enumerate() {
+            let oa = a_tx(&a.apply(e));
+            let ob = a_tx(&b.apply(e));
+            if oa.0 != ob.0 {
+                out.push(V {
+                    sig: format!("C20|async|restored-device-uplink-differs|probe{i}"),
+                    what: format!("original sends {:?}, a device constructed around the restored session sends {:?} (document {doc})", oa.0.iter().map(|x| hex(x)).collect::<Vec<_>>(), ob.0.iter().map(|x| hex(x)).collect::<Vec<_>>()),
+                });
+                return out;
+            }
+            if oa.1 != ob.1 {
+                out.push(V { sig: format!("C20|async|restored-device-response-differs|probe{i}"), what: format!("original {} restored {}", oa.1, ob.1) });
+                return out;
+            }
+            if oa.2 != ob.2 {
+                out.push(V { sig: format!("C20|async|restored-device-session-differs|probe{i}"), what: format!("original {:?}\nrestored {:?}", oa.2, ob.2) });
+                return out;
+            }
+        }
+        out
+    }
+
+    fn key(&self) -> Self::Key {
+        (self.core.snap(), 0)
     }
     fn alive(&self) -> bool {
         self.core.dead.is_none()
@@ -655,6 +791,14 @@ pub struct DocCase {
 }
 
 fn replay_case(c: &Value) -> Vec<String> {
+    if c.get("history").is_some()
+        && let Some(ac) = c["cfg"].get("async_cfg")
+    {
+        let cfg: DevCfg = serde_json::from_value(ac.clone()).expect("cfg");
+        let class_c = c["cfg"]["class_c"].as_bool().unwrap_or(false);
+        let hist: Vec<crate::adev::AEv> = serde_json::from_value(c["history"].clone()).expect("history");
+        return explore::replay(&|| SysA::new(&cfg, class_c), &hist);
+    }
     if c.get("history").is_some() {
         let cfg: DevCfg = serde_json::from_value(c["cfg"].clone()).expect("cfg");
         let hist: Vec<Ev> = serde_json::from_value(c["history"].clone()).expect("history");
@@ -708,6 +852,18 @@ pub fn run(tier: Tier, replay: Option<&str>) {
         capped |= st.capped;
         for (k, v) in st.outcomes {
             *outcomes.entry(k).or_insert(0) += v;
+        }
+    }
+    // ---- the async front-end as the original (with and without Class C)
+    for class_c in [false, true] {
+        let cfg = DevCfg::abp("EU868");
+        let cj = json!({"async_cfg": serde_json::to_value(&cfg).unwrap(), "class_c": class_c});
+        let st = explore::bfs(&ctx, &cj, &|| SysA::new(&cfg, class_c), depth, 500_000);
+        states += st.states;
+        transitions += st.transitions;
+        capped |= st.capped;
+        for (k, v) in st.outcomes {
+            *outcomes.entry(format!("async:{k}")).or_insert(0) += v;
         }
     }
     // ---- malformed documents: mutate documents of reached states
@@ -772,7 +928,7 @@ pub fn run(tier: Tier, replay: Option<&str>) {
         ],
         "evaluations": ctx.evals(),
         "distinct_nontrivial": states + muts.load(Ordering::Relaxed),
-        "rule": "BFS over session histories on the real device (plain / confirmed uplinks, downlinks that queue sticky and one-shot answers, owed ACKs, 3..15 bytes of pending answers through port 0, set_adr) from sessions whose counters start at 16/32-bit boundaries, with/without a downlink seen (incl. a first downlink with counter 0) and with the ADR counter at 63 / 64 / 95 / 96; at EVERY reached state the session is serialised with serde_json, deserialised, re-serialised (identical document), compared field by field through the snapshot hook - after nb set_session and after the async constructor new_with_session, whose next uplink must also be the original's -, and a fresh device given the restored session runs in lock-step with the original for four probe transactions (uplink, replays of the last two accepted downlinks, a fresh confirmed downlink with a MAC command, uplink). Malformed documents: every single structural mutation (delete / duplicate / null / wrong type / boundary numbers / arrays one shorter or longer / non-byte elements) of the documents of representative states; the positional (sequence) form of every struct of the document - each alone and all together - and, on those, every number replaced by boundary values; pairs in thorough",
+        "rule": "BFS over histories on the async front-end as the original (uplinks, downlinks that leave an ACK owed or a sticky answer, uplinks during which the 1st..4th radio call fails; with and without Class C): at every state the session is persisted, a second async device is constructed around the restored session and both run four probe uplinks (frames, responses, sessions compared); downlinks whose answers overflow the 15-byte budget while a sticky answer fits are in the nb alphabet; BFS over session histories on the real device (plain / confirmed uplinks, downlinks that queue sticky and one-shot answers, owed ACKs, 3..15 bytes of pending answers through port 0, set_adr) from sessions whose counters start at 16/32-bit boundaries, with/without a downlink seen (incl. a first downlink with counter 0) and with the ADR counter at 63 / 64 / 95 / 96; at EVERY reached state the session is serialised with serde_json, deserialised, re-serialised (identical document), compared field by field through the snapshot hook - after nb set_session and after the async constructor new_with_session, whose next uplink must also be the original's -, and a fresh device given the restored session runs in lock-step with the original for four probe transactions (uplink, replays of the last two accepted downlinks, a fresh confirmed downlink with a MAC command, uplink). Malformed documents: every single structural mutation (delete / duplicate / null / wrong type / boundary numbers / arrays one shorter or longer / non-byte elements) of the documents of representative states; the positional (sequence) form of every struct of the document - each alone and all together - and, on those, every number replaced by boundary values; pairs in thorough",
         "bfs_depth": depth,
         "documents_mutated": docs.len(),
         "mutated_documents_evaluated": muts.load(Ordering::Relaxed),
